@@ -362,6 +362,232 @@ func genLayout(pkgs []*packages.Package) string {
 	return strings.Join(o.lines, "\n") + "\n"
 }
 
+
+// genPanicSites: inventory of panic-capable constructs in the functions of the
+// receive / dearmor / classify paths: explicit panic calls, calls of the helpers
+// that panic on a length mismatch, index and slice expressions, type assertions
+// without comma-ok, by function.  A change of this inventory breaks the proof of
+// C15_inventory_covered, which pins it to the list the model accounts for.
+func genPanicSites(pkgs []*packages.Package) string {
+	o := &out{}
+	o.add("(* GENERATED from /repo by harness/cmd/gen — do not edit. *)")
+	o.add("From Coq Require Import List String NArith.")
+	o.add("Import ListNotations.")
+	o.add("Open Scope string_scope.")
+	o.add("")
+	decodeFiles := map[string]bool{"decrypt.go": true, "signcrypt_open.go": true, "verify.go": true, "verify_stream.go": true,
+		"packets.go": true, "msgpack.go": true, "chunk_reader.go": true, "common.go": true, "nonce.go": true, "key.go": true,
+		"classify_and_decrypt.go": true, "armor.go": true, "frame.go": true, "punctuated_reader.go": true, "armor62.go": true,
+		"armor62_decrypt.go": true, "armor62_verify.go": true, "armor62_signcrypt.go": true, "encoding.go": true, "stream.go": true}
+	helpers := map[string]bool{"copyEqualSize": true, "copyEqualSizeStr": true, "sliceToByte24": true, "stringToByte24": true,
+		"sliceToByte32": true, "sliceToByte64": true, "assertEncodedChunkState": true}
+	type ent struct {
+		name                                      string
+		panics, helperCalls, idx, slc, assertions int
+	}
+	var ents []ent
+	for _, p := range pkgs {
+		for _, f := range p.Syntax {
+			if isTest(p.Fset, f) || !decodeFiles[baseName(p.Fset, f)] || strings.HasPrefix(baseName(p.Fset, f), "verif_") {
+				continue
+			}
+			for _, d := range f.Decls {
+				fd, ok := d.(*ast.FuncDecl)
+				if !ok || fd.Body == nil {
+					continue
+				}
+				e := ent{name: p.Name + "." + funcName(fd)}
+				ast.Inspect(fd.Body, func(n ast.Node) bool {
+					switch x := n.(type) {
+					case *ast.CallExpr:
+						if id, ok := x.Fun.(*ast.Ident); ok {
+							if id.Name == "panic" {
+								e.panics++
+							} else if helpers[id.Name] {
+								e.helperCalls++
+							}
+						}
+					case *ast.IndexExpr:
+						// map reads do not panic
+						if tv, ok := p.TypesInfo.Types[x.X]; ok {
+							if _, isMap := tv.Type.Underlying().(*types.Map); isMap {
+								return true
+							}
+						}
+						e.idx++
+					case *ast.SliceExpr:
+						e.slc++
+					case *ast.TypeAssertExpr:
+						if x.Type != nil {
+							e.assertions++
+						}
+					}
+					return true
+				})
+				if e.panics+e.helperCalls+e.idx+e.slc+e.assertions > 0 {
+					ents = append(ents, e)
+				}
+			}
+		}
+	}
+	sort.Slice(ents, func(i, j int) bool { return ents[i].name < ents[j].name })
+	o.add("(* function, explicit panics, calls of length-checking helpers that panic, index expressions (non-map), slice expressions, unchecked type assertions *)")
+	o.add("Definition panic_sites : list (string * (N * N * N * N * N)) := [")
+	for i, e := range ents {
+		sep := ";"
+		if i == len(ents)-1 {
+			sep = ""
+		}
+		o.add("  (\"%s\", (%d, %d, %d, %d, %d)%%N)%s", e.name, e.panics, e.helperCalls, e.idx, e.slc, e.assertions, sep)
+	}
+	o.add("].")
+	return strings.Join(o.lines, "\n") + "\n"
+}
+
+
+// genSharedState: package-level variables of saltpack, basex and basic, and every
+// construct that can write through them outside initialisation: assignments, ++/--,
+// and method calls whose receiver expression is rooted at a package-level variable or
+// at a value of one of the shared types (*basex.Encoding, armorParams).
+func genSharedState(pkgs []*packages.Package) string {
+	o := &out{}
+	o.add("(* GENERATED from /repo by harness/cmd/gen — do not edit. *)")
+	o.add("From Coq Require Import List String.")
+	o.add("Import ListNotations.")
+	o.add("Open Scope string_scope.")
+	o.add("")
+	var vars, writes, calls []string
+	sharedType := func(t types.Type) bool {
+		if t == nil {
+			return false
+		}
+		s := t.String()
+		return strings.HasSuffix(s, "basex.Encoding") || strings.HasSuffix(s, "saltpack.armorParams")
+	}
+	for _, p := range pkgs {
+		scope := p.Types.Scope()
+		for _, n := range scope.Names() {
+			if v, ok := scope.Lookup(n).(*types.Var); ok {
+				if strings.HasSuffix(p.Fset.Position(v.Pos()).Filename, "_test.go") || strings.HasPrefix(filepath.Base(p.Fset.Position(v.Pos()).Filename), "verif_") {
+					continue
+				}
+				vars = append(vars, p.Name+"."+n+" : "+types.TypeString(v.Type(), func(q *types.Package) string { return q.Name() }))
+			}
+		}
+		rootOf := func(e ast.Expr) (ast.Expr, *ast.Ident) {
+			for {
+				switch x := e.(type) {
+				case *ast.SelectorExpr:
+					e = x.X
+				case *ast.IndexExpr:
+					e = x.X
+				case *ast.StarExpr:
+					e = x.X
+				case *ast.ParenExpr:
+					e = x.X
+				case *ast.SliceExpr:
+					e = x.X
+				case *ast.Ident:
+					return e, x
+				default:
+					return e, nil
+				}
+			}
+		}
+		isShared := func(e ast.Expr) (bool, string) {
+			_, id := rootOf(e)
+			if id == nil {
+				return false, ""
+			}
+			obj := p.TypesInfo.Uses[id]
+			if obj == nil {
+				obj = p.TypesInfo.Defs[id]
+			}
+			if v, ok := obj.(*types.Var); ok {
+				if v.Parent() == p.Types.Scope() {
+					return true, "package variable " + id.Name
+				}
+				t := v.Type()
+				if pt, ok := t.(*types.Pointer); ok {
+					t = pt.Elem()
+				}
+				if sharedType(t) && e != ast.Expr(id) {
+					return true, "field of shared " + types.TypeString(t, func(q *types.Package) string { return q.Name() })
+				}
+			}
+			return false, ""
+		}
+		for _, f := range p.Syntax {
+			fname := baseName(p.Fset, f)
+			if isTest(p.Fset, f) || strings.HasPrefix(fname, "verif_") {
+				continue
+			}
+			for _, d := range f.Decls {
+				fd, ok := d.(*ast.FuncDecl)
+				if !ok || fd.Body == nil {
+					continue
+				}
+				fn := p.Name + "." + funcName(fd)
+				if fn == "basex.NewEncoding" {
+					continue // construction, before the value is shared (listed by rule)
+				}
+				ast.Inspect(fd.Body, func(n ast.Node) bool {
+					switch x := n.(type) {
+					case *ast.AssignStmt:
+						for _, l := range x.Lhs {
+							if sh, why := isShared(l); sh {
+								if _, isIdent := l.(*ast.Ident); isIdent && x.Tok == token.DEFINE {
+									continue
+								}
+								writes = append(writes, fn+": assignment through "+why)
+							}
+						}
+					case *ast.IncDecStmt:
+						if sh, why := isShared(x.X); sh {
+							writes = append(writes, fn+": ++/-- through "+why)
+						}
+					case *ast.CallExpr:
+						if sel, ok := x.Fun.(*ast.SelectorExpr); ok {
+							// method call whose receiver is reached through shared state
+							if selInfo, ok := p.TypesInfo.Selections[sel]; ok && selInfo.Kind() == types.MethodVal {
+								if sh, why := isShared(sel.X); sh {
+									recv := selInfo.Obj().(*types.Func).Type().(*types.Signature).Recv()
+									ptr := false
+									if recv != nil {
+										_, ptr = recv.Type().(*types.Pointer)
+									}
+									if ptr {
+										calls = append(calls, fn+": "+types.ExprString(sel.X)+"."+sel.Sel.Name+" (pointer-receiver method through "+why+")")
+									}
+								}
+							}
+						}
+					}
+					return true
+				})
+			}
+		}
+	}
+	sort.Strings(vars)
+	sort.Strings(writes)
+	sort.Strings(calls)
+	emit := func(name string, l []string) {
+		o.add("Definition %s : list string := [", name)
+		for i, s := range l {
+			sep := ";"
+			if i == len(l)-1 {
+				sep = ""
+			}
+			o.add("  \"%s\"%s", strings.ReplaceAll(s, "\"", "'"), sep)
+		}
+		o.add("].")
+	}
+	emit("package_vars", vars)
+	emit("shared_writes", writes)
+	emit("shared_pointer_method_calls", calls)
+	return strings.Join(o.lines, "\n") + "\n"
+}
+
 func writeIfChanged(path, content string) {
 	old, err := os.ReadFile(path)
 	if err == nil && bytes.Equal(old, []byte(content)) {
@@ -380,7 +606,7 @@ func main() {
 	repo, outdir := os.Args[1], os.Args[2]
 	cfg := &packages.Config{Mode: packages.NeedName | packages.NeedFiles | packages.NeedSyntax | packages.NeedTypes | packages.NeedTypesInfo | packages.NeedImports | packages.NeedDeps,
 		Dir: repo, Tests: false}
-	pkgs, err := packages.Load(cfg, "github.com/keybase/saltpack", "github.com/keybase/saltpack/encoding/basex")
+	pkgs, err := packages.Load(cfg, "github.com/keybase/saltpack", "github.com/keybase/saltpack/encoding/basex", "github.com/keybase/saltpack/basic")
 	if err != nil {
 		die("load: %v", err)
 	}
@@ -392,4 +618,6 @@ func main() {
 	sort.Slice(pkgs, func(i, j int) bool { return pkgs[i].PkgPath < pkgs[j].PkgPath })
 	writeIfChanged(filepath.Join(outdir, "Consts.v"), genConsts(pkgs))
 	writeIfChanged(filepath.Join(outdir, "Layout.v"), genLayout(pkgs))
+	writeIfChanged(filepath.Join(outdir, "PanicSites.v"), genPanicSites(pkgs))
+	writeIfChanged(filepath.Join(outdir, "SharedState.v"), genSharedState(pkgs))
 }
